@@ -64,10 +64,14 @@ func TdxPolicy(ctx context.Context, endorsement *epb.VMLaunchEndorsement, opts *
 	for _, m := range golden.Tdx.Measurements {
 		// If RAMGiB is 0, we try all measurements.
 		// If nonzero, skip sizes that don't match.
-		if opts.RAMGiB != 0 && m.GetRamGib() != uint32(opts.RAMGiB) {
+		if opts.RAMGiB != 0 && int64(m.GetRamGib()) != int64(opts.RAMGiB) {
 			continue
 		}
 		mrtds = append(mrtds, m.GetMrtd())
+	}
+	if len(mrtds) == 0 {
+		// An empty any_mr_td is no constraint at all, so it must not be mistaken for a policy.
+		return nil, fmt.Errorf("golden measurement has no tdx measurement for %d GiB of RAM", opts.RAMGiB)
 	}
 	if err := modifyTdxPolicy(result, mrtds, opts); err != nil {
 		return nil, err
